@@ -43,6 +43,7 @@ class FastHierarchyAnalyzer(HierarchyAnalyzerBase):
     def __init__(self, *args, **kwargs):
         super().__init__(*args, **kwargs)
         self._imputation_cache = {}
+        self._single_taken_cache = {}
 
     def get_encoder_type(self) -> SelChoiceEncoderType:
         return SelChoiceEncoderType.FAST
@@ -93,6 +94,7 @@ class FastHierarchyAnalyzer(HierarchyAnalyzerBase):
             is_fixed = [False for _ in range(len(opt_idx))]
 
         graph_cache = self._graph_cache
+        single_taken_cache = self._single_taken_cache
         sel_choice_nodes = self.selection_choice_nodes
         i_sel_choice_nodes = {node: i for i, node in enumerate(sel_choice_nodes)}
         sel_choice_opt_nodes = self.selection_choice_option_nodes
@@ -124,11 +126,20 @@ class FastHierarchyAnalyzer(HierarchyAnalyzerBase):
                 cache_key = tuple(taken_sel_opt)
                 if cache_key in graph_cache:
                     graph = graph_cache[cache_key]
-                    continue
 
-                # Make choice
-                option_node = sel_choice_opt_nodes[choice_node][i_opt]
-                graph_cache[cache_key] = graph = graph.get_for_apply_selection_choice(choice_node, option_node)
+                else:
+                    # Make choice
+                    option_node = sel_choice_opt_nodes[choice_node][i_opt]
+                    graph_cache[cache_key] = graph = graph.get_for_apply_selection_choice(choice_node, option_node)
+
+                    # Choices left with only one option are taken automatically: these choices are active too
+                    single_taken_cache[cache_key] = [
+                        (i_sel_choice_nodes[node], sel_choice_opt_nodes[node].index(opt_node))
+                        for node, opt_node in graph.get_taken_single_selection_choices()
+                        if opt_node is not None and node in i_sel_choice_nodes]
+
+                for i_single, i_opt_single in single_taken_cache[cache_key]:
+                    taken_sel_opt[i_single] = i_opt_single
 
             # Verify that indeed no selection_choices are left
             if len([node for node in graph.choice_nodes if isinstance(node, SelectionChoiceNode)]) > 0:
